@@ -71,7 +71,7 @@ def signature(path, keep_raise_args=False, ignore_attr_stores=(),
             if not strict and k[0] == 'call' and sym.Evaluator(
                     )._call_name(k[1]) in IGNORED_CALLS:
                 continue
-            if k[0] == 'const':
+            if k[0] in ('const', 'num'):
                 continue
             effects.append(('do', demsg(k)))
         elif e[0] == 'del':
@@ -84,7 +84,33 @@ def signature(path, keep_raise_args=False, ignore_attr_stores=(),
                 effects.append(('loop', e[1], ls))
         elif e[0] in ('except', 'caught'):
             effects.append((e[0], e[1] if e[0] == 'except' else e[2]))
-    return (frozenset(conds), out, tuple(effects))
+    return (frozenset(conds), out, _order_stores(effects))
+
+
+def _order_stores(effects):
+    """Consecutive stores to different targets, none of whose values reads
+    another's target, commute: put each such run in one canonical order."""
+    out = []
+    run = []
+
+    def flush():
+        if len(run) > 1:
+            targets = [e[1] for e in run]
+            indep = len(set(targets)) == len(targets) and not any(
+                sym.mentions_any(e[2], [t for t in targets if t != e[1]])
+                for e in run)
+            if indep:
+                run.sort(key=repr)
+        out.extend(run)
+        del run[:]
+    for e in effects:
+        if e[0] == 'store':
+            run.append(e)
+        else:
+            flush()
+            out.append(e)
+    flush()
+    return tuple(out)
 
 
 def _loop_sig(body_events, strict=False):
@@ -102,6 +128,8 @@ def _loop_sig(body_events, strict=False):
                 k = e[1]
                 if not strict and k[0] == 'call' and sym.Evaluator(
                         )._call_name(k[1]) in IGNORED_CALLS:
+                    continue
+                if k[0] in ('const', 'num'):
                     continue
                 ev.append(('do', demsg(k)))
             elif e[0] == 'aug':
